@@ -168,6 +168,15 @@ def run(chk, ctx):
            sorted(globals_read))
     chk.ob('C12.D', 'nondeterministic primitives', not nondet,
            'none reachable' if not nondet else '; '.join(nondet[:3]))
+    deco = []
+    for fi in funcs:
+        for d in fi.node.decorator_list:
+            txt = ast.unparse(d)
+            if txt not in ('classmethod', 'staticmethod'):
+                deco.append('%s: @%s' % (fi.short, txt))
+    chk.ob('C12.D', 'no wrapper on the encode side', not deco,
+           'no decorated function on the encode side' if not deco else
+           'result may depend on call history through %s' % deco)
     chk.assume('logging is an effect on the log, not on the result')
     chk.units['abstract_runs'] = runs
 
